@@ -2,4 +2,4 @@ INIT Init
 NEXT Next
 CONSTANTS
   DropIds = FALSE
-  FoldAnyRight = FALSE
+  FoldAnyRight = TRUE
